@@ -9,6 +9,7 @@ CONSTANTS
   LVs = {"l1"}
   Variant = "as_found"
   Broken = "none"
+  MapWindow = TRUE
   MaxPrints = 2
   MaxFree = 0
 VIEW view
